@@ -257,6 +257,20 @@ fn run_once(case: &NetCliCase, slow: u32) -> CaseResult {
             let got: Vec<(u8, u8)> = seen.iter().map(|(_, u, p)| (*u, p.first().copied().unwrap_or(0))).collect();
             if got != expect {
                 verdict = Some(format!("the peer saw {} requests {:?}.., the caller made {} {:?}..", got.len(), &got[..got.len().min(5)], expect.len(), &expect[..expect.len().min(5)]));
+            } else {
+                // byte for byte the reference encoding, transaction ids advancing by one
+                let valid: Vec<_> = case.exchanges.iter().filter_map(|e| e.req.to_valid().map(|v| (e.unit, v))).collect();
+                for (k, ((tx, unit, pdu), (_, v))) in seen.iter().zip(valid.iter()).enumerate() {
+                    let want = crate::simcli::expected_request_frame(crate::simsrv::Fr::Mbap, *tx, *unit, v);
+                    if want[7..] != pdu[..] {
+                        verdict = Some(format!("request {} on the wire is {:02X?}.., the protocol encoding is {:02X?}..", k, &pdu[..pdu.len().min(12)], &want[7..want.len().min(19)]));
+                        break;
+                    }
+                    if k > 0 && *tx != seen[k - 1].0.wrapping_add(1) {
+                        verdict = Some(format!("request {} carries transaction id {} after {}", k, tx, seen[k - 1].0));
+                        break;
+                    }
+                }
             }
         }
         let _ = channel.shutdown().await;
@@ -387,6 +401,7 @@ fn run_pty_once(case: &NetCliCase, slow: u32) -> CaseResult {
             }
         }
     });
+    let exchanges_for_wire = case.exchanges.clone();
     let has_silent = case.exchanges.iter().any(|e| e.answer == Answer::Silent);
     let near_deadline = case.exchanges.iter().any(|e| matches!(e.answer, Answer::NearDeadline(_)));
     let n_exchanges = case.exchanges.len();
@@ -498,6 +513,18 @@ fn run_pty_once(case: &NetCliCase, slow: u32) -> CaseResult {
         ok.label("reply_in_last_third_of_timeout");
     }
     ok.nontrivial = pieces >= 2 && n_exchanges >= 5;
-    let _ = seen;
+    if !harness_late {
+        let seen = seen.lock().unwrap().clone();
+        let valid: Vec<_> = exchanges_for_wire.iter().filter_map(|e| e.req.to_valid().map(|v| (if e.unit == 0 { 1 } else { e.unit }, v))).collect();
+        if seen.len() != valid.len() {
+            return Err(format!("the device saw {} requests, the caller made {}", seen.len(), valid.len()));
+        }
+        for (k, ((addr, pdu), (unit, v))) in seen.iter().zip(valid.iter()).enumerate() {
+            let want = crate::simcli::expected_request_frame(crate::simsrv::Fr::Rtu, 0, *unit, v);
+            if addr != unit || want[1..want.len() - 2] != pdu[..] {
+                return Err(format!("request {} on the serial line is addressed to {} with {:02X?}.., the caller asked unit {} and the encoding is {:02X?}..", k, addr, &pdu[..pdu.len().min(12)], unit, &want[1..want.len().min(13)]));
+            }
+        }
+    }
     Ok(ok)
 }
